@@ -93,8 +93,10 @@ type genReq struct {
 	BodyLen int
 	Chunked bool
 	Chunks  []int
-	Class   string
-	body    []byte
+	// request trailers (chunked bodies only): part of the input, their delivery is not judged
+	Trailers []rawhttp.Field
+	Class    string
+	body     []byte
 	// HopNamesStrict: the backend must not receive ANY field under a hop-by-hop name the client used
 	// (HTTP/1.1 path only: an HTTP/2 transport adds its own "te: trailers").
 	HopNamesStrict bool
@@ -297,6 +299,12 @@ func genRequest(rng *rand.Rand, tok string, big bool) *genReq {
 				g.Chunks = append(g.Chunks, n)
 				rest -= n
 			}
+			if rng.Intn(6) == 0 {
+				g.Trailers = []rawhttp.Field{{Name: "X-Req-Trailer", Value: "t-" + tok}}
+				if rng.Intn(2) == 0 {
+					g.Trailers = append(g.Trailers, rawhttp.Field{Name: "X-Req-Checksum", Value: strconv.Itoa(g.BodyLen)})
+				}
+			}
 		}
 	}
 	// planted hop-by-hop fields
@@ -337,7 +345,7 @@ func genRequest(rng *rand.Rand, tok string, big bool) *genReq {
 			fr = "chunked"
 		}
 	}
-	g.Class = fmt.Sprintf("%s|%s|hdr:%d%s|body:%s|%s|hop:%x", methodClass(g.Method), tclass, len(shape), boolStr(strings.Contains(shape, "R"), "+rep", ""), sizeClass(g.BodyLen), fr, hopShape)
+	g.Class = fmt.Sprintf("%s|%s|hdr:%d%s|body:%s|%s|hop:%x", methodClass(g.Method), tclass, len(shape), boolStr(strings.Contains(shape, "R"), "+rep", ""), sizeClass(g.BodyLen), fr+boolStr(len(g.Trailers) > 0, "+trailers", ""), hopShape)
 	return g
 }
 
@@ -376,13 +384,20 @@ func (g *genReq) wire() []byte {
 	}
 	if g.body != nil || g.BodyLen > 0 {
 		if g.Chunked {
+			if len(g.Trailers) > 0 {
+				var names []string
+				for _, t := range g.Trailers {
+					names = append(names, t.Name)
+				}
+				w.Field("Trailer", strings.Join(names, ", "))
+			}
 			w.Field("Transfer-Encoding", "chunked").End()
 			off := 0
 			for _, n := range g.Chunks {
 				w.Chunk(g.body[off : off+n])
 				off += n
 			}
-			w.LastChunk(nil)
+			w.LastChunk(g.Trailers)
 			return w.Bytes()
 		}
 		w.Field("Content-Length", strconv.Itoa(g.BodyLen))
@@ -475,7 +490,7 @@ func trunc(vs []string) []string {
 // C02 — the backend receives the client's request unaltered.
 func C02(r *core.Run) {
 	r.SetRule("grammar-generated requests (method, origin-form target with escapes/dot/empty segments and queries, Host variants, 0-12 header fields with repeats/mixed case/odd values, planted hop-by-hop fields with unique tokens, bodies at buffer boundaries framed by CL or random chunks) sent by raw-TCP clients through real server+agent to a raw-TCP recording backend; class = (method, path class, query class, header shape, body-size class, framing, hop-field set)")
-	r.Assume("well-formed requests only: no CONNECT/asterisk/absolute-form targets, Expect, request trailers, Connection-nominated fields, ';' in queries or malformed escapes (DESIGN.md §3 C02)")
+	r.Assume("well-formed requests only: no CONNECT/asterisk/absolute-form targets, ';' in queries or malformed escapes (DESIGN.md §3 C02); request trailers are sent (1 chunked request in 6) but their own delivery is not judged")
 	serverBin := r.MustBuild(r.BuildRepoBinary("./server", "server"))
 	agentBin := r.MustBuild(r.BuildRepoBinary("./agent", "agent"))
 	md, err := fakes.NewMetadata()
